@@ -56,9 +56,9 @@ class Skein(object):
         O = []
         n = l = 0
         T = Tweak(Type='out')
-        ubi = UBI(Threefish,G,T)
         while l<lq:
-            o = ubi(pack(Bits(n,64)))
+            # every output block is a fresh UBI from G with the initial 'out' tweak
+            o = UBI(Threefish,G,T)(pack(Bits(n,64)))
             l += len(o)
             O.append(o)
             n += 1
